@@ -154,7 +154,8 @@ def run_group(g, reach=False, keep=False):
             defs.append("-DVERIF_REACH")
         if g.lift:
             lifted = os.path.join(d, "lifted.c")
-            cmd = ["python3", os.path.join(VERIF, "tools", "lift_x86_64.py"), os.path.join(REPO, g.lift[0]), lifted] + list(g.lift[1]) + \
+            tool = "lift_i386.py" if "i386" in g.lift[0] else "lift_x86_64.py"
+            cmd = ["python3", os.path.join(VERIF, "tools", tool), os.path.join(REPO, g.lift[0]), lifted] + list(g.lift[1]) + \
                   ["--cpp=" + x for x in CONFIGS[g.cfg]] + ["--cpp=-D" + x for x in g.defs if x.startswith("ASCON_")]
             rc, out, err, dt = _run(cmd, d, 120, logf)
             r.cmds.append(" ".join(cmd))
